@@ -20,7 +20,7 @@ ID = "C03"
 LEVEL = "model_checking"
 MIN_OUTCOMES = 2
 MANIFEST = {
-    'text': 'Complete enumeration of a constructed project table (pattern/state pairs x config formats x layouts x arrangements incl. all orders of different patterns on one line x line-ending regimes); each project is updated by the real CLI in-process and every occurrence, whose position and expected text are known by construction, is compared with the reference rendering; config value and `show` must equal the announced version. Further layouts: a $-anchored pattern in a file that mixes LF and CRLF lines (known finding); hidden files and directories under globs; a README with the bare {version}/{pep440_version} pair `init` writes and the version twice on a line; the same pattern two and three times on one line; occurrences glued to a letter or underscore; 20,000-character lines and a 6,000-line file with occurrences far apart; look-alike sections of other tools with their own current_version before the bumpver section; a config file that holds a second version line and is named only by a glob or another spelling of its path. The same layouts are run again with files that show ANOTHER version than the config (stale occurrences): every matched place must still end at the new version.',
+    'text': 'Complete enumeration of a constructed project table (pattern/state pairs x config formats x layouts x arrangements incl. all orders of different patterns on one line x line-ending regimes); each project is updated by the real CLI in-process and every occurrence, whose position and expected text are known by construction, is compared with the reference rendering; config value and `show` must equal the announced version. Further layouts: a $-anchored pattern in a file that mixes LF and CRLF lines (known finding); hidden files and directories under globs; a README with the bare {version}/{pep440_version} pair `init` writes and the version twice on a line; the same pattern two and three times on one line; occurrences glued to a letter or underscore; 20,000-character lines and a 6,000-line file with occurrences far apart; look-alike sections of other tools with their own current_version before the bumpver section; a config file that holds a second version line and is named only by a glob or another spelling of its path. The same layouts are run again with files that show ANOTHER version than the config (stale occurrences): every matched place must still end at the new version. One version case per TAG pattern ends in the tag `preview`.',
     'note': 'more than 3 occurrences per line and files beyond a few hundred bytes are outside the bound; {pep440_version} occurrences are judged by PEP 440 equality (packaging) with the announced version',
     'technique': 'exhaustive enumeration of a bounded project/layout space executed on the real CLI, by-construction oracle',
 }
